@@ -151,6 +151,7 @@ func runC15(c *Ctx) {
 		stream, data := f.Params[cd.stream], f.Params[cd.data]
 		// R15.1
 		checkErrorsReturned(c, "R15.1", f, 0, nil)
+		checkErrorNotOverwritten(c, "R15.1", f, 0)
 		// every return's error is nil, a fresh error, or a fallible call's error
 		for _, r := range realReturns(f) {
 			v := resOf(r, 0)
@@ -181,27 +182,7 @@ func runC15(c *Ctx) {
 		}
 		// a deferred function that assigns the codec's (named) error result must not wipe out an earlier failure:
 		// it assigns only when the result is still nil
-		for _, g := range f.AnonFuncs {
-			for _, in := range ownInstrs(g) {
-				st, isSt := in.(*ssa.Store)
-				if !isSt {
-					continue
-				}
-				fv, isFV := st.Addr.(*ssa.FreeVar)
-				if !isFV || typeStr(fv.Type()) != "*error" {
-					continue
-				}
-				cell := freeVarCell(fv)
-				if cell == nil || cell.Parent() != f || !isResultCell(f, cell) {
-					continue
-				}
-				stillNil := factNil(func(v ssa.Value) bool {
-					ad, ok := derefLoad(v)
-					return ok && ad == ssa.Value(fv)
-				}, true)
-				c.obI("R15.1", st, "deferred-assignment-keeps-earlier-error", guardedBy(st, nil, stillNil), "a deferred function assigns the codec's error result only while it is still nil (the outcome of closing never replaces an earlier read, write or marshal failure)", "the deferred function overwrites the error result unconditionally: a failed transfer followed by a successful close is reported as success")
-			}
-		}
+		checkDeferredErrAssign(c, "R15.1", f)
 		// R15.4 nil guards
 		isIface := func(v *ssa.Parameter) bool {
 			return strings.HasPrefix(typeStr(v.Type()), "io.") || typeStr(v.Type()) == "interface{}" || typeStr(v.Type()) == "any"
@@ -468,6 +449,28 @@ func runC15(c *Ctx) {
 				}
 			}
 		}
+		// a producer never lets the payload act as a format string: whatever is data reaches the writer as an operand
+		if strings.HasSuffix(cd.outer, "Producer") {
+			for _, ci := range allCalls(f) {
+				n := calleeName(ci.Common())
+				at := -1
+				switch n {
+				case "fmt.Fprintf":
+					at = 1
+				case "fmt.Sprintf", "fmt.Appendf":
+					at = 0
+					if n == "fmt.Appendf" {
+						at = 1
+					}
+				}
+				if at < 0 || at >= len(ci.Common().Args) {
+					continue
+				}
+				if _, isConst := constString(ci.Common().Args[at]); !isConst {
+					c.obD("R15.1", ci, "payload-is-never-a-format", false, "what a producer formats with is a constant layout; the payload is an operand of it, never the layout itself (a '%' in the data would be rewritten)", baseName(n)+" is given a computed format string")
+				}
+			}
+		}
 		// what was read is what is delivered — and what decides whether anything is delivered: the buffered bytes are not
 		// trimmed, folded or otherwise rewritten on their way (a blank body is still a body)
 		if cd.outer == "rt.TextConsumer" || cd.outer == "rt.ByteStreamConsumer" {
@@ -685,6 +688,37 @@ func runC15(c *Ctx) {
 	c.min("R15.4", 5)
 	c.min("R15.5", 5)
 
+	// sibling agreement of each pair on the marshaling family: the interfaces of package encoding the consumer tests its
+	// destination for are the counterparts of those the producer tests its payload for (a destination that implements
+	// both families must be fed through the one the producer wrote with)
+	for _, pair := range [][2]string{{"rt.ByteStreamProducer", "rt.ByteStreamConsumer"}, {"rt.TextProducer", "rt.TextConsumer"}} {
+		fam := func(outer string) map[string]bool {
+			m := map[string]bool{}
+			f := codecFuncOf(p.Fn(outer), 2, 1)
+			for fn := range staticReach(p, f) {
+				if fn.Pkg == nil || !strings.HasPrefix(fn.Pkg.Pkg.Path(), "github.com/go-openapi/runtime") {
+					continue
+				}
+				for _, in := range instrs(fn) {
+					if ta, ok := in.(*ssa.TypeAssert); ok {
+						t := typeStr(ta.AssertedType)
+						if strings.HasPrefix(t, "encoding.") {
+							t = strings.TrimPrefix(t, "encoding.")
+							t = strings.TrimSuffix(strings.TrimSuffix(t, "Unmarshaler"), "Marshaler")
+							m[t] = true
+						}
+					}
+				}
+			}
+			return m
+		}
+		pf, cf := fam(pair[0]), fam(pair[1])
+		same := len(pf) == len(cf)
+		for k := range pf {
+			same = same && cf[k]
+		}
+		c.obF("R15.2", codecFuncOf(p.Fn(pair[1]), 2, 1), "pair-agrees-on-marshaling-family", same, "the consumer tests its destination for the unmarshaler counterparts of exactly the encoding interfaces its producer writes with", fmt.Sprintf("producer %v, consumer %v", pf, cf))
+	}
 	// sibling agreement of the text codec: the consumer's first choice is encoding.TextUnmarshaler, so the producer's
 	// first choice is encoding.TextMarshaler (a value that also is an error or a Stringer is still written as its text form)
 	{
@@ -868,4 +902,29 @@ func isResultCell(f *ssa.Function, cell *ssa.Alloc) bool {
 		}
 	}
 	return false
+}
+
+// checkDeferredErrAssign: a deferred function that assigns f's (named) error result assigns it only while it is still nil.
+func checkDeferredErrAssign(c *Ctx, rule string, f *ssa.Function) {
+	for _, g := range f.AnonFuncs {
+		for _, in := range ownInstrs(g) {
+			st, isSt := in.(*ssa.Store)
+			if !isSt {
+				continue
+			}
+			fv, isFV := st.Addr.(*ssa.FreeVar)
+			if !isFV || typeStr(fv.Type()) != "*error" {
+				continue
+			}
+			cell := freeVarCell(fv)
+			if cell == nil || cell.Parent() != f || !isResultCell(f, cell) {
+				continue
+			}
+			stillNil := factNil(func(v ssa.Value) bool {
+				ad, ok := derefLoad(v)
+				return ok && ad == ssa.Value(fv)
+			}, true)
+			c.obI(rule, st, "deferred-assignment-keeps-earlier-error", guardedBy(st, nil, stillNil), "a deferred function assigns the codec's error result only while it is still nil (the outcome of closing never replaces an earlier read, write or marshal failure)", "the deferred function overwrites the error result unconditionally: a failed transfer followed by a successful close is reported as success")
+		}
+	}
 }
